@@ -43,19 +43,21 @@ theorem setI_ok {α : Type} (l : List α) (i : Int) (v : α) (h0 : 0 ≤ i) (h :
 
 /-! ### shift -/
 
-theorem shiftBy_no_panic (params : List Bytes) (n : Int) (h : 0 ≤ n) : shiftBy params n ≠ .panic := by
+theorem shiftBy_no_panic (params : List Bytes) (n : Int) : shiftBy params n ≠ .panic := by
   unfold shiftBy
-  by_cases hn : n ≥ (params.length : Int)
-  · rw [if_pos hn]; intro h'; cases h'
-  · rw [if_neg hn, sliceFromI_ok params n h (by omega)]
-    intro h'; cases h'
+  by_cases h0 : n < 0
+  · rw [if_pos h0]; intro h'; cases h'
+  · rw [if_neg h0]
+    by_cases hn : n ≥ (params.length : Int)
+    · rw [if_pos hn]; intro h'; cases h'
+    · rw [if_neg hn, sliceFromI_ok params n (by omega) (by omega)]
+      intro h'; cases h'
 
-theorem shift_no_panic_of (params args : List Bytes)
-    (h : ∀ n, shiftCount args = some n → 0 ≤ n) : shift params args ≠ .panic := by
+theorem shift_no_panic (params args : List Bytes) : shift params args ≠ .panic := by
   unfold shift
-  cases hc : shiftCount args with
+  cases shiftCount args with
   | none => intro h'; cases h'
-  | some n => exact shiftBy_no_panic params n (h n hc)
+  | some n => exact shiftBy_no_panic params n
 
 /-! ### wait -/
 
@@ -324,131 +326,69 @@ theorem fpSize_init (args : List Bytes) : fpSize (FP.init args) = argsSize args 
 
 /-! ### getopts -/
 
-/-- The cursor invariant that makes `opts[g.runeidx]` safe against the argument vector `args`:
-    either the rune cursor is at the start of a word, or the word under the argument cursor is
-    long enough. -/
-def GInv (g : GState) (args : List (List Nat)) : Prop :=
-  g.runeidx = 0 ∨ ∃ arg, args[g.argidx]? = some arg ∧ g.runeidx + 1 < arg.length
+theorem gRuneIdx_lt (runeidx : Nat) (opts : List Nat) (h : 1 ≤ opts.length) :
+    gRuneIdx runeidx opts < opts.length := by
+  unfold gRuneIdx
+  split <;> omega
 
-theorem gnext_spec (g : GState) (optstr : List Nat) (args : List (List Nat)) (h : GInv g args) :
-    ∃ g' o, gnext g optstr args = .ok (g', o) ∧ GInv g' args := by
+/-- Once the rune cursor is inside the word, the rest of `next` cannot panic. -/
+theorem gstep_ok (g : GState) (optstr : List Nat) (args : List (List Nat)) (opts : List Nat)
+    (hri : g.runeidx < opts.length) :
+    ∃ g' o, gstep g optstr args opts = .ok (g', o) := by
+  unfold gstep
+  rw [getN_ok _ g.runeidx hri]
+  simp only
+  by_cases hna : needsArg optstr opts[g.runeidx] = true
+  · rw [if_pos hna]
+    by_cases ha : g.runeidx + 1 < opts.length
+    · rw [if_pos ha, sliceFromN_ok _ _ (by omega)]
+      exact ⟨_, _, rfl⟩
+    · rw [if_neg ha]
+      by_cases hb : g.argidx + 1 < args.length
+      · rw [if_pos hb, getN_ok args (g.argidx + 1) hb]
+        exact ⟨_, _, rfl⟩
+      · rw [if_neg hb]
+        exact ⟨_, _, rfl⟩
+  · rw [if_neg hna]
+    split
+    · exact ⟨_, _, rfl⟩
+    · exact ⟨_, _, rfl⟩
+
+/-- `getopts.next` is total: for *every* cursor (argidx, runeidx), option string and argument
+    vector.  No invariant is needed any more: a stale rune cursor is repaired before it is used. -/
+theorem gnext_total (g : GState) (optstr : List Nat) (args : List (List Nat)) :
+    ∃ g' o, gnext g optstr args = .ok (g', o) := by
   unfold gnext
   by_cases h0 : args.length = 0 ∨ g.argidx ≥ args.length
-  · rw [if_pos h0]; exact ⟨g, gDone, rfl, h⟩
+  · rw [if_pos h0]; exact ⟨g, gDone, rfl⟩
   · rw [if_neg h0]
     have hlt : g.argidx < args.length := by omega
     rw [getN_ok args g.argidx hlt]
     simp only
     by_cases h1 : args[g.argidx].length < 2
-    · rw [if_pos h1]; exact ⟨g, gDone, rfl, h⟩
+    · rw [if_pos h1]; exact ⟨g, gDone, rfl⟩
     · rw [if_neg h1, getN_ok _ 0 (by omega)]
       simp only
       by_cases h2 : args[g.argidx][0] ≠ 45
-      · rw [if_pos h2]; exact ⟨g, gDone, rfl, h⟩
+      · rw [if_pos h2]; exact ⟨g, gDone, rfl⟩
       · rw [if_neg h2, getN_ok _ 1 (by omega)]
         simp only
         by_cases h3 : args[g.argidx][1] = 45
-        · rw [if_pos h3]; exact ⟨g, gDone, rfl, h⟩
+        · rw [if_pos h3]; exact ⟨g, gDone, rfl⟩
         · rw [if_neg h3, sliceFromN_ok _ 1 (by omega)]
           simp only
-          have hri : g.runeidx < (args[g.argidx].drop 1).length := by
-            rw [List.length_drop]
-            rcases h with h | ⟨arg, ha, hl⟩
-            · omega
-            · rw [List.getElem?_eq_getElem hlt] at ha
-              cases ha
-              omega
-          rw [getN_ok _ g.runeidx hri]
-          simp only
-          by_cases hna : needsArg optstr (args[g.argidx].drop 1)[g.runeidx] = true
-          · -- the option takes an argument: every branch resets runeidx
-            rw [if_pos hna]
-            by_cases ha : g.runeidx + 1 < (args[g.argidx].drop 1).length
-            · rw [if_pos ha, sliceFromN_ok _ _ (by omega)]
-              exact ⟨_, _, rfl, Or.inl rfl⟩
-            · rw [if_neg ha]
-              by_cases hb : g.argidx + 1 < args.length
-              · rw [if_pos hb, getN_ok args (g.argidx + 1) hb]
-                exact ⟨_, _, rfl, Or.inl rfl⟩
-              · rw [if_neg hb]
-                exact ⟨_, _, rfl, Or.inl rfl⟩
-          · rw [if_neg hna]
-            have hinv : GInv (if g.runeidx + 1 < (args[g.argidx].drop 1).length
-                then (⟨g.argidx, g.runeidx + 1⟩ : GState) else ⟨g.argidx + 1, 0⟩) args := by
-              by_cases hm : g.runeidx + 1 < (args[g.argidx].drop 1).length
-              · rw [if_pos hm]
-                right
-                refine ⟨args[g.argidx], List.getElem?_eq_getElem hlt, ?_⟩
-                rw [List.length_drop] at hm
-                show g.runeidx + 1 + 1 < _
-                omega
-              · rw [if_neg hm]; exact Or.inl rfl
-            split
-            · exact ⟨_, _, rfl, hinv⟩
-            · exact ⟨_, _, rfl, hinv⟩
+          exact gstep_ok _ optstr args _
+            (gRuneIdx_lt _ _ (by rw [List.length_drop]; omega))
 
-theorem gsync_inv (g : GState) (optind : Int) (args : List (List Nat)) (h : GInv g args) :
-    GInv (gsync g optind) args := by
-  unfold gsync
-  split
-  · exact Or.inl rfl
-  · exact h
-
-theorem gsync_cases (g : GState) (optind : Int) :
-    (optind - 1 ≠ (g.argidx : Int) ∧ (gsync g optind).runeidx = 0) ∨
-    (optind - 1 = (g.argidx : Int) ∧ gsync g optind = g) := by
-  unfold gsync
-  by_cases h : optind - 1 ≠ (g.argidx : Int)
-  · rw [if_pos h]; exact Or.inl ⟨h, rfl⟩
-  · rw [if_neg h]; exact Or.inr ⟨by omega, rfl⟩
-
-/-- Compatibility of a call with the cursor left by the previous call on `prev`. -/
-def GCompat (g : GState) (prev : List (List Nat)) (c : GCall) : Prop :=
-  g.runeidx = 0 ∨ c.optind - 1 ≠ (g.argidx : Int) ∨ prev[g.argidx]? = c.args[g.argidx]?
-
-/-- Every call of the sequence is compatible with the cursor it meets. -/
-def GStable : GState → List (List Nat) → List GCall → Prop
-  | _, _, [] => True
-  | g, prev, c :: cs => GCompat g prev c ∧ ∀ g' o, gcall g c = .ok (g', o) → GStable g' c.args cs
-
-theorem gcall_spec (g : GState) (prev : List (List Nat)) (c : GCall) (hi : GInv g prev)
-    (hc : GCompat g prev c) : ∃ g' o, gcall g c = .ok (g', o) ∧ GInv g' c.args := by
-  unfold gcall
-  apply gnext_spec
-  rcases gsync_cases g c.optind with ⟨_, h0⟩ | ⟨heq, hs⟩
-  · exact Or.inl h0
-  · rw [hs]
-    rcases hc with h | h | h
-    · exact Or.inl h
-    · exact absurd heq h
-    · rcases hi with h' | ⟨arg, ha, hl⟩
-      · exact Or.inl h'
-      · exact Or.inr ⟨arg, by rw [← h]; exact ha, hl⟩
-
-theorem grun_stable (calls : List GCall) : ∀ (g : GState) (prev : List (List Nat)),
-    GInv g prev → GStable g prev calls → grun g calls ≠ .panic := by
+theorem grun_total (calls : List GCall) : ∀ (g : GState), grun g calls ≠ .panic := by
   induction calls with
-  | nil => intro g prev _ _ h; cases h
+  | nil => intro g h; cases h
   | cons c cs ih =>
-    intro g prev hi hs
-    obtain ⟨hc, hrest⟩ := hs
-    obtain ⟨g', o, hg, hi'⟩ := gcall_spec g prev c hi hc
-    unfold grun
+    intro g
+    obtain ⟨g', o, hg⟩ := gnext_total (gsync g c.optind) c.optstr c.args
+    unfold grun gcall
     rw [hg]
-    exact ih g' c.args hi' (hrest g' o hg)
-
-theorem grun_fixed (args : List (List Nat)) (calls : List GCall) : ∀ (g : GState),
-    GInv g args → (∀ c ∈ calls, c.args = args) → grun g calls ≠ .panic := by
-  induction calls with
-  | nil => intro g _ _ h; cases h
-  | cons c cs ih =>
-    intro g hi hall
-    have hca : c.args = args := hall c (List.mem_cons_self ..)
-    obtain ⟨g', o, hg, hi'⟩ := gcall_spec g args c hi (Or.inr (Or.inr (by rw [hca])))
-    unfold grun
-    rw [hg]
-    rw [hca] at hi'
-    exact ih g' hi' (fun c' hc' => hall c' (List.mem_cons_of_mem _ hc'))
+    exact ih g'
 
 /-! ### pushd / popd / dirs -/
 
@@ -569,9 +509,17 @@ theorem sliceLen_ok {α : Type} (l : List α) (len : Option Int) : ∃ r, sliceL
 theorem sliceStr_safe (rs : List Nat) (off len : Option Int) : sliceStr rs off len ≠ .panic := by
   unfold sliceStr
   obtain ⟨r, hr⟩ := sliceOff_ok rs off
-  obtain ⟨r2, hr2⟩ := sliceLen_ok r len
-  rw [hr]; simp only; rw [hr2]
-  intro h; cases h
+  rw [hr]
+  simp only
+  cases len with
+  | none => intro h; cases h
+  | some l =>
+    simp only
+    split
+    · intro h; cases h
+    · obtain ⟨r2, hr2⟩ := sliceLen_ok r (some l)
+      rw [hr2]
+      intro h; cases h
 
 theorem bsearch_spec (x : List Int) (t : Int) : ∀ (fuel i j : Nat), i ≤ j → j ≤ x.length →
     ∃ r, bsearch x t fuel i j = .ok r ∧ r ≤ j := by
